@@ -40,6 +40,11 @@ CHECKS = {
                 text="Every generated query is rewritten by variant generators (qastle round trip for queries qastle carries faithfully, capture-avoiding alpha-renaming with hostile names, "
                      "MetaData re-attached at every point of the main chain, Select.Select/Where.Where fusion, method<->function style); all variants must be accepted/refused alike and render the same package.",
                 note="identifier renumbering applied identically to both sides; the query text quoted in the First() error message is masked", ref="4/C08"),
+    "C09": dict(cat="exploration", technique="refusal oracle over grafted queries: a catalogue of unsupported constructs placed at live positions of valid queries; returned packages are compiled to show what was dropped",
+                text="Each unsupported construct (operators, comparison chains, Aggregate arities, slices, arithmetic/comparison/negation on sequences, raw objects, value-as-sequence, label counts, "
+                     "getAttribute, malformed/unknown metadata, keyword arguments) is grafted at 23 kinds of live position with random valid filler expressions on all three backends; "
+                     "translation must raise (any exception type).",
+                note="positions are live by construction; the catalogue is finite and listed in the evidence file", ref="4/C09"),
 }
 
 PENDING_REASON = "check not built yet at this commit (work in progress, see DESIGN.md section 4)"
